@@ -117,6 +117,7 @@ GENERATORS = [
     ('Gen_Parity.v', 'gen_parity.py', ['src/lib/crypto/odd.h']),
     ('Gen_Table.v', 'gen_table.py', ['src/lib/P11Objects.cpp', 'src/lib/P11Attributes.h', 'src/lib/P11Attributes.cpp', 'src/lib/P11Objects.h']),
     ('Gen_Entry.v', 'gen_entry.py', ['src/lib/SoftHSM.cpp', 'src/lib/SoftHSM.h', 'src/lib/access.h']),
+    ('Gen_Ops.v', 'gen_entry.py ops', ['src/lib/SoftHSM.cpp', 'src/lib/SoftHSM.h']),
     ('Gen_Token.v', 'gen_token.py', ['src/lib/session_mgr/SessionManager.cpp', 'src/lib/slot_mgr/Token.cpp', 'src/lib/session_mgr/SessionManager.h', 'src/lib/slot_mgr/Token.h']),
     ('Gen_Pure.v', 'gen_pure.py', ['src/lib/access.cpp', 'src/lib/session_mgr/Session.cpp', 'src/lib/P11Attributes.cpp', 'src/lib/P11Attributes.h',
                                    'src/lib/session_mgr/Session.h', 'src/lib/access.h']),
@@ -132,6 +133,7 @@ def translate(build, only=None):
             if only and outn not in only:
                 continue
             outp = os.path.join(GEN, outn)
+            script, *sargs = script.split()
             deps = [os.path.join(REPO, s) for s in srcs] + [os.path.join(ROOT, 'translator', script), os.path.join(ROOT, 'translator', 'cxxir.py'),
                                                              os.path.join(ROOT, 'translator', 'shallow.py'), os.path.join(build, 'config.h')]
             if outn not in ('Gen_Const.v', 'Gen_Parity.v'):
@@ -144,7 +146,7 @@ def translate(build, only=None):
             tmp = outp + '.new'
             if os.path.exists(outp):
                 shutil.copy(outp, tmp)
-            rc, o, e = sh([sys.executable, os.path.join(ROOT, 'translator', script), build, tmp], timeout=600, cwd=os.path.join(ROOT, 'translator'),
+            rc, o, e = sh([sys.executable, os.path.join(ROOT, 'translator', script), build, tmp] + sargs, timeout=600, cwd=os.path.join(ROOT, 'translator'),
                           env={'VERIF_REPO': REPO})
             if rc != 0 or not os.path.exists(tmp):
                 rep[outn] = 'FAILED: ' + (e or o)[-1500:]
